@@ -21,6 +21,9 @@ structure Acc where
   lastPreset : List String := []
   segment : List (List String) := []    -- lattice-building commands since the last dump
   dumps : Nat := 0
+  /-- lattice-building commands of the current lattice that the library ACCEPTED (answered `o ok`), in order -/
+  accepted : List (List String) := []
+  acceptedSaved : List (List String) := []     -- `accepted` at the time of `fork`
   idxTable : List (String × Nat × Nat) := []   -- index ↦ (label hex, orb, spin)
   fails : Nat := 0
   counts : List (String × Nat) := []
